@@ -326,7 +326,7 @@ fn gen_ops(rng: &mut Rng, nflows: usize, t: u64, n: usize) -> Vec<Op> {
         let f = if rng.chance(5, 6) { *rng.pick(&focus) } else { rng.below(nflows as u64) as usize };
         match rng.below(10) {
             0..=3 => ops.push(Op::Dg(f, *rng.pick(&lens))),
-            4..=6 => ops.push(Op::Reply(f, if rng.chance(1, 5) { rng.below(3) as usize } else { *rng.pick(&lens) })),
+            4..=6 => ops.push(Op::Reply(f, if rng.chance(1, 5) { rng.below(3) as usize } else if rng.chance(1, 12) { *rng.pick(&[65000usize, 65497]) } else { *rng.pick(&lens) })),
             _ => ops.push(Op::Adv(*rng.pick(&advs))),
         }
     }
